@@ -166,8 +166,13 @@ def main():
                 if got is None:
                     # classify: the (rounded) point is within a few ulps of the curve at a dyadic break point of the bisection
                     dev = max(abs(point[r] - X.bern(nodes[r], s)) / max(X.bern_abs(nodes[r], s), Fr(1, 10 ** 300)) for r in range(len(nodes)))
+                    const_rows = [r for r in range(len(nodes)) if all(v == nodes[r][0] for v in nodes[r])]
                     if dyadic_break and not exact_on_curve and dev <= 64 * C.U:
                         key = "locate:closed-box-miss@dyadic-breakpoint"
+                    elif dev <= 64 * C.U and any(point[r] != nodes[r][0] for r in const_rows):
+                        # a coordinate in which the curve is constant: the control-point box is degenerate there and the
+                        # rounded evaluation (1-s) c + s c differs from c by an ulp
+                        key = "locate:closed-box-miss@constant-coordinate"
                     else:
                         key = "locate:miss-on-curve"
                     res.failure(key, "locate_point returned None for evaluate(s=%s) on a regular injective degree-%d curve (point within %.2e relative of the curve)" %
